@@ -142,7 +142,40 @@ def summarise(lk, guards):
             if (cols[i] >> j) & 1:
                 acc = bxor(acc, xb[i])
         out.append(acc)
-    return norm(SInt(out))
+    r = norm(SInt(out))
+    if isinstance(r, SInt):
+        r.lin = x
+    return r
+
+
+class Lazy:
+    """merge of values that are only needed if somebody uses them (e.g. a table lookup assigned inside an arm)"""
+    def __init__(self, rt, g, a, b, name):
+        self._a = (rt, g, a, b, name)
+        self._v = None
+
+    def force(self):
+        if self._v is None:
+            rt, g, a, b, name = self._a
+            a = a.force() if isinstance(a, Lazy) else a
+            b = b.force() if isinstance(b, Lazy) else b
+            if isinstance(a, Lookup):
+                a = a.materialise()
+            if isinstance(b, Lookup):
+                b = b.materialise()
+            self._v = (rt.merge(g, a, b, name),)
+        return self._v[0]
+
+    def _m(name):
+        def f(self, *a):
+            return getattr(self.force(), name)(*a)
+        return f
+    for _n in ('__add__', '__radd__', '__sub__', '__rsub__', '__mul__', '__rmul__', '__xor__', '__rxor__', '__and__', '__rand__',
+               '__or__', '__ror__', '__rshift__', '__lshift__', '__lt__', '__le__', '__gt__', '__ge__', '__eq__', '__ne__', '__mod__',
+               '__floordiv__', '__bool__', '__str__', '__format__', '__index__', '__neg__', '__truediv__', '__rtruediv__'):
+        locals()[_n] = _m(_n)
+    del _m, _n
+    __hash__ = None
 
 
 class Runtime:
@@ -166,6 +199,8 @@ class Runtime:
 
     # ---- if-conversion
     def test(self, v, site):
+        if isinstance(v, Lazy):
+            v = v.force()
         if isinstance(v, (SInt, SNum)):
             v = v != 0
         if isinstance(v, Lookup):
@@ -235,10 +270,8 @@ class Runtime:
             return b
         if b is UNDEF:
             return a
-        if isinstance(a, Lookup):
-            a = a.materialise()
-        if isinstance(b, Lookup):
-            b = b.materialise()
+        if isinstance(a, (Lookup, Lazy)) or isinstance(b, (Lookup, Lazy)):
+            return Lazy(self, g, a, b, name)
         if isinstance(a, (bool, SBool)) and isinstance(b, (bool, SBool)):
             if isinstance(a, bool) and isinstance(b, bool) and a == b:
                 return a
@@ -280,6 +313,8 @@ class Runtime:
             '&': lambda x, y: x & y}
 
     def augstore(self, a, k, op, v):
+        if isinstance(v, Lazy):
+            v = v.force()
         if isinstance(v, Lookup):
             v = v.materialise()
         f = self._OPS.get(op)
@@ -309,6 +344,8 @@ class Runtime:
         if len(g) != 1 or g[0].nonzero_of is None:
             return False
         x = g[0].nonzero_of
+        if v.lin is x:
+            return True      # v == M.x by the proved summarisation lemma, hence 0 when x == 0
         leaves = [b for b in x.bits if not isinstance(b, int)]
         fresh = [z3.BitVec(f'ab{i}', 1) for i in range(len(leaves))]
         sub = list(zip(leaves, fresh))
@@ -449,6 +486,8 @@ class Runtime:
     def getitem(self, obj, key):
         if isinstance(key, (int, slice, str)) or key is None:
             return obj[key]
+        if isinstance(key, Lazy):
+            key = key.force()
         if isinstance(key, Lookup):
             if isinstance(obj, (tuple, list, bytes)) and all(isc(e) for e in obj):
                 return summarise(Lookup(key.chain + [(obj, 0)], key.x), self.active())
